@@ -106,6 +106,11 @@ def main(tier, write_baseline=False):
     M.RAISE_CTX.update(prop="C03", write=bool(write_baseline))
     run.trusted_base.update(["Lean 4.33 kernel (lean/C03.lean, no Mathlib)", "the Lean statement models a hop as a total function IR -> IR and pi as a projection; H1/H2 are only checked within the bound"])
     lean_obligations(run)
+    # a hop-level obligation that every chain through `function` relies on: _infer_default leaves a declared annotation alone
+    # (block contract of contracts/C02.py, verified here as well)
+    from cddvc import e1
+
+    e1_refuted = e1.run_contracts(run, "contracts.C02", only={"cdd.shared.docstring_parsers:_infer_default#declared-type-kept"})
     if write_baseline:
         common.write_baseline("C03", [n for n, o in run.obligations.items() if o["status"] == "proved"])
     compare_baseline(run, set(run.obligations))
@@ -161,7 +166,10 @@ def main(tier, write_baseline=False):
         })
     for name, o in run.obligations.items():
         if o["status"] == REFUTED:
-            run.violation(name, o["detail"], solver_output={"lean": o["detail"]})
+            if "_infer_default" in name:
+                run.violation(name, "obligation refuted (%s)" % o["detail"], failing_input=common.infer_default_replay(), solver_output={"model": o.get("model"), "detail": o["detail"]})
+            else:
+                run.violation(name, o["detail"], solver_output={"lean": o["detail"]})
     for key, (seq, ir, what) in sorted(fails.items(), key=str):
         cls = "|".join(str(k) for k in key)
         run.violation("C03/bounded/chain", "[class %s] %s" % (cls, what), key={"class": cls}, failing_input={"sequence": seq, "ir": json.loads(json.dumps(ir, default=str))})
